@@ -111,11 +111,75 @@ def run_seq(ctx, seq, reqs, metas):
     return ok_all
 
 
+def foreign_quote_case(ctx, case):
+    """moving tokens between the wallet and a market quoted in a token OTHER than the account's quote token (a pool quoted in a stable coin inside a
+    USD account, a pool quoted in ETH inside a USDC account) at fixed prices: the account's reported net value — wallet at the price table plus
+    the market's value converted at the price of the market's quote token — does not rise, and deposits / withdrawals conserve it"""
+    from demeter import TokenInfo, MarketInfo, Broker
+    from demeter.uniswap import UniLpMarket, UniV3Pool
+    import uni_common as U
+    qn, bn, an = case["quote"], case["base"], case["account"]
+    quote, base, acct = TokenInfo(qn, case["dq"]), TokenInfo(bn, case["db"]), TokenInfo(an, 6)
+    pool = UniV3Pool(base, quote, 0.05, quote) if case["base_is_0"] else UniV3Pool(quote, base, 0.05, quote)
+    b = Broker()
+    m = UniLpMarket(MarketInfo("uni"), pool)
+    b.add_market(m)
+    b.quote_token = acct
+    tick = case["tick"]
+    price = m.tick_to_price(tick)                                   # base in units of the market's quote token
+    qp = Decimal(case["quote_price"])                               # the market's quote token in units of the account's quote token
+    prices = {bn: price * qp, qn: qp, an: Decimal(1)}
+    m.set_market_status(U.imports()[5](timestamp=None, data=U.mk_series(tick, Decimal(10 ** 18), Decimal(0), Decimal(0), price)), price=None)
+    b.set_balance(base, Decimal(case["base_balance"]))
+    b.set_balance(quote, Decimal(case["quote_balance"]))
+    sp = pool.tick_spacing
+    nv = lambda: Fraction(b.get_account_status(prices).net_value)   # noqa: E731
+    for i, (op, lo, up, frac) in enumerate(case["ops"]):
+        v0 = nv()
+        try:
+            if op == "add":
+                m.add_liquidity_by_tick(tick + lo * sp, tick + up * sp, b.get_token_balance(base) * Decimal(frac), b.get_token_balance(quote) * Decimal(frac))
+            elif op == "remove" and m.positions:
+                m.remove_liquidity(list(m.positions.keys())[0])
+            elif op == "swap":
+                m.sell(b.get_token_balance(base) * Decimal(frac))
+            err = None
+        except Exception as e:  # noqa: BLE001
+            err = type(e).__name__
+        v1 = nv()
+        dust = Fraction(1, 10 ** 5) * max(abs(v0), 1) * Fraction(1, 10)
+        tag = f"foreign-quote:{an}<-{qn}:{op}:{err or 'ok'}"
+        if v1 - v0 > dust:
+            ctx.violate(f"broker.foreign-quote.value_created.{op}", f"account quoted in {an}, pool quoted in {qn} priced {qp} {an}: {op} (step {i + 1}, {err or 'accepted'}) "
+                        f"raised the account's net value from {float(v0):.12g} to {float(v1):.12g}", case)
+            break
+        if err is None and op in ("add", "remove") and abs(v1 - v0) > dust:
+            ctx.violate(f"broker.foreign-quote.not_conserved.{op}", f"account quoted in {an}, pool quoted in {qn} priced {qp} {an}: {op} changed the account's net value "
+                        f"from {float(v0):.12g} to {float(v1):.12g}", case)
+            break
+        ctx.case(tag + (":peg" if qp == 1 else ":off-peg"), case if i == 0 else None)
+    return not [v for v in ctx.violations if v.get("key", "").startswith("broker.foreign-quote")]
+
+
+def gen_foreign_quote(rng):
+    acct, quote = rng.choice((("USD", "USDC"), ("USD", "USDT"), ("USDC", "DAI"), ("USDC", "WETH"), ("USD", "WETH"), ("USDT", "USDC")))
+    stable = quote in ("USDC", "USDT", "DAI")
+    qp = rng.choice(("1", "0.995", "1.004", "0.92", "0.9991")) if stable else rng.choice(("1600", "2345.5"))
+    base = "WETH" if stable else "OSQTH"
+    ops = [("add", -rng.randint(1, 20), rng.randint(1, 20), rng.choice(("0.3", "0.5", "0.9")))]
+    for _ in range(rng.randint(1, 4)):
+        ops.append((rng.choice(("add", "remove", "swap")), -rng.randint(1, 20), rng.randint(1, 20), rng.choice(("0.1", "0.5"))))
+    return {"kind": "foreign-quote", "account": acct, "quote": quote, "base": base, "dq": 6 if stable and quote != "DAI" else 18, "db": 18, "base_is_0": rng.random() < 0.5,
+            "tick": rng.randint(-300, 300) * 10, "quote_price": qp, "base_balance": str(rng.randint(1, 50)), "quote_balance": str(rng.randint(1000, 100000)), "ops": ops}
+
+
 def run(ctx: Ctx):
     n = ctx.scale(500, 12000)
     reqs, metas = [], []
     for _ in range(n):
         run_seq(ctx, gen_seq(ctx.rng), reqs, metas)
+    for _ in range(ctx.scale(60, 1500)):
+        foreign_quote_case(ctx, gen_foreign_quote(ctx.rng))
     ctx.impl_traces += n
     if not ctx.driver_ok:
         return
@@ -131,6 +195,12 @@ def run(ctx: Ctx):
 
 
 def replay(ctx, case):
+    if case.get("kind") == "foreign-quote":
+        sub = Ctx(ctx.prop, ctx.tier, ctx.seed, False)
+        foreign_quote_case(sub, case)
+        for v in sub.violations:
+            print("  ", v["key"], v["what"][:300])
+        return not sub.violations
     wallet = [(k, Decimal(v)) for k, v in case["wallet"]]
     prices = {k: Decimal(v) for k, v in case["prices"]}
     from demeter import TokenInfo
